@@ -81,6 +81,7 @@ Expected(B, c) ==
                          ELSE IF InTable(IndexOf(c.x, c.g), c.span, c.g) THEN IndexOf(c.x, c.g) ELSE Err
     [] c.op = "pd2i"  -> IndexOf(c.x, c.g)            \* only asked for instants of the window
     [] c.op = "pi2d"  -> TimeOf(c.x, c.g)
+    [] c.op = "d2iclamp" -> IF c.x > 0 THEN Size(c.span, c.g) - 1 ELSE 0      \* an instant far beyond (x = 1) / before (x = -1) the table, clamping requested
     [] c.op = "pd2ix" -> 0                             \* instants before the project start: no value is claimed, only py = cy (C13)
     [] c.op = "runs"  -> Runs(c.pat, c.ws, c.we, MinSlots(c.minsec, c.g))
     [] c.op = "onshift" -> OnShiftMW(B.tables[c.h + 1], c.d, c.y)
